@@ -7,7 +7,8 @@ use crate::Program;
 use crate::ProgramRef;
 use deno_ast::swc::ast::{
   ArrowExpr, BlockStmtOrExpr, Constructor, Decl, DefaultDecl, FnDecl, Function,
-  ModuleDecl, ModuleItem, Script, Stmt, VarDecl, VarDeclKind,
+  GetterProp, ModuleDecl, ModuleItem, Script, SetterProp, Stmt, VarDecl,
+  VarDeclKind,
 };
 use deno_ast::swc::ecma_visit::{noop_visit_type, Visit, VisitWith};
 use deno_ast::SourceRange;
@@ -152,6 +153,20 @@ impl Visit for ValidDeclsVisitor {
     }
     arrow_expr.visit_children_with(self);
   }
+
+  fn visit_getter_prop(&mut self, getter_prop: &GetterProp) {
+    if let Some(block) = &getter_prop.body {
+      self.check_stmts(&block.stmts);
+    }
+    getter_prop.visit_children_with(self);
+  }
+
+  fn visit_setter_prop(&mut self, setter_prop: &SetterProp) {
+    if let Some(block) = &setter_prop.body {
+      self.check_stmts(&block.stmts);
+    }
+    setter_prop.visit_children_with(self);
+  }
 }
 
 struct NoInnerDeclarationsVisitor<'c, 'view> {
@@ -204,6 +219,27 @@ impl Visit for NoInnerDeclarationsVisitor<'_, '_> {
     let old = self.in_function;
     self.in_function = true;
     function.visit_children_with(self);
+    self.in_function = old;
+  }
+
+  fn visit_constructor(&mut self, constructor: &Constructor) {
+    let old = self.in_function;
+    self.in_function = true;
+    constructor.visit_children_with(self);
+    self.in_function = old;
+  }
+
+  fn visit_getter_prop(&mut self, getter_prop: &GetterProp) {
+    let old = self.in_function;
+    self.in_function = true;
+    getter_prop.visit_children_with(self);
+    self.in_function = old;
+  }
+
+  fn visit_setter_prop(&mut self, setter_prop: &SetterProp) {
+    let old = self.in_function;
+    self.in_function = true;
+    setter_prop.visit_children_with(self);
     self.in_function = old;
   }
 
